@@ -814,6 +814,77 @@ func c04h(c *Ctx) {
 		if nFull < 2 || nPart < 2 {
 			c.Unk(f.Name+" tile staging", fmt.Sprintf("expected full and partial data+names staging sites, found %d/%d", nFull, nPart))
 		}
+		// completeness: staging MUST happen on the full edge of every leaf, and on the trailing-partial edge
+		{
+			head := rangeHead(g, loop)
+			live := func(es map[Edge]bool) []Edge {
+				var out []Edge
+				for e := range es {
+					if !g.dead[e] {
+						out = append(out, e)
+					}
+				}
+				return out
+			}
+			for _, x := range st {
+				x := x
+				name := map[string]string{"-1": "data", "-2": "names"}[x.level]
+				stop := func(p Point, _ ast.Node) bool { return p == x.site.P }
+				if x.in {
+					inst := fmt.Sprintf("%s full %s tile is always staged", f.Name, name)
+					lf := live(full)
+					bad := len(lf) == 0
+					for _, e := range lf {
+						if g.EntersBlock(EdgeStart(e), Cut{Stop: stop}, head) {
+							bad = true
+						}
+						// ... or reach the lock commit without staging it
+						if pt, _ := g.Reach(EdgeStart(e), Cut{Stop: stop}, atAnySite(f.CallsW(specLockRepl))); pt != nil {
+							bad = true
+						}
+					}
+					// every leaf evaluates the test: from the increment the next leaf is not reached around it
+					both := map[Edge]bool{}
+					for e := range full {
+						both[Edge{e.From, 0}] = true
+						both[Edge{e.From, 1}] = true
+					}
+					if g.EntersBlock(inc[0].After(), Cut{Edges: both}, head) {
+						bad = true
+					}
+					if bad {
+						c.Bad(inst, x.site.Pos(), "when the tree size reaches a multiple of the tile width the full "+name+" tile is not staged on every path before the next leaf is processed: the tile would be missing from storage")
+					} else {
+						c.add(Result{Instance: inst, Verdict: Discharged, Evals: len(lf) + 1, Sites: []string{x.site.Pos()}, Detail: "from the n % 256 == 0 edge neither the next leaf nor the lock commit is reached without staging the tile; every leaf passes the test"})
+					}
+				} else {
+					inst := fmt.Sprintf("%s trailing partial %s tile is always staged", f.Name, name)
+					// the edges on which both "grew" and "not aligned" hold
+					var lf []Edge
+					for e := range notFull {
+						if grew[e] && !g.dead[e] {
+							lf = append(lf, e)
+						}
+					}
+					bad := len(lf) == 0
+					var repl []Site
+					repl = append(repl, f.CallsW(specLockRepl)...)
+					for _, e := range lf {
+						if pt, _ := g.Reach(EdgeStart(e), Cut{Stop: stop}, atAnySite(repl)); pt != nil {
+							bad = true
+						}
+					}
+					if len(repl) == 0 {
+						bad = true
+					}
+					if bad {
+						c.Bad(inst, x.site.Pos(), "a round that leaves the tree size unaligned can commit without staging the trailing partial "+name+" tile")
+					} else {
+						c.add(Result{Instance: inst, Verdict: Discharged, Evals: len(lf), Sites: []string{x.site.Pos()}, Detail: "from the (grew && n % 256 != 0) edge the lock commit is not reached without staging the tile"})
+					}
+				}
+			}
+		}
 		// the tile coordinate: TileForIndex(TileHeight, StoredHashIndex(0, n-1))
 		okCoord := 0
 		for _, s := range f.Calls(Callee{pkgTlog, "", "TileForIndex"}) {
@@ -1179,6 +1250,9 @@ func c04i(c *Ctx) {
 					part := g.EdgesImplying(func(at Atom) bool { rel, okc := cmpRel(at, isW, isTW); return okc && rel == relLT })
 					if len(part) == 0 {
 						continue
+					}
+					if live, _ := g.ReachableFromEntry(Cut{}, atSite(a)); live == nil {
+						continue // dead code does not initialise anything
 					}
 					if pt, _ := g.ReachableFromEntry(Cut{Edges: part}, atSite(a)); pt == nil {
 						found = true
